@@ -27,6 +27,14 @@ def _find_func(tree, q):
     return node
 
 
+def _walk(node):
+    """pre-order, source-order walk (ast.walk is breadth-first, which makes nth-occurrence selection confusing)"""
+    yield node
+    for c in ast.iter_child_nodes(node):
+        for x in _walk(c):
+            yield x
+
+
 def _where(tree, q):
     return tree if q is None else _find_func(tree, q)
 
@@ -38,7 +46,7 @@ def const(modname, q, old, new, name=None, nth=0):
         if f is None:
             return False
         k = 0
-        for n in ast.walk(f):
+        for n in _walk(f):
             if isinstance(n, ast.Constant) and type(n.value) == type(old) and n.value == old:
                 if k == nth:
                     n.value = new
@@ -55,7 +63,7 @@ def cmpop(modname, q, match, newop, name=None, nth=0):
         if f is None:
             return False
         k = 0
-        for n in ast.walk(f):
+        for n in _walk(f):
             if isinstance(n, ast.Compare) and match in unparse(n):
                 if k == nth:
                     n.ops = [newop()] + n.ops[1:]
@@ -189,7 +197,7 @@ def swap_args(modname, q, callee, i, j, name=None, nth=0):
         if f is None:
             return False
         k = 0
-        for n in ast.walk(f):
+        for n in _walk(f):
             if isinstance(n, ast.Call):
                 fn = n.func
                 nm = fn.id if isinstance(fn, ast.Name) else (fn.attr if isinstance(fn, ast.Attribute) else None)
